@@ -556,6 +556,16 @@ func Atomic(f func()) bool {
 	return !t.broken
 }
 
+// AtomicBroken reports whether the innermost running Atomic section of the current task has
+// already been broken by a real block.
+func AtomicBroken() bool {
+	s := S
+	if s == nil || s.cur == nil {
+		return false
+	}
+	return s.cur.atomic > 0 && s.cur.broken
+}
+
 // MapKeys returns the keys of m in an order chosen by the simulator.
 func MapKeys[M ~map[K]V, K comparable, V any](site int, m M) []K {
 	keys := make([]K, 0, len(m))
